@@ -342,7 +342,7 @@ func c37Replay(v c37Vec, rng interface{ Intn(int) int }, res *kit.Result) (rec c
 				dump := append([]byte(nil), c37LastDump...)
 				grace := 15 * time.Second
 				if c37ConfirmedBlocked.Load() >= 3 {
-					grace = 100 * time.Millisecond
+					grace = 2 * time.Millisecond
 				}
 				dl := time.Now().Add(grace)
 				for op.tStart.Load() == 0 && time.Now().Before(dl) {
